@@ -358,8 +358,109 @@ def run_missing(it):
     return res
 
 
+# ---------------------------------------------------------------------------------------------
+# parametric fits (iterative optimisers): a spectrum's fit must not depend on what else is in the batch
+# ---------------------------------------------------------------------------------------------
+FIT_FREQ = np.arange(0.04, 0.42, 0.015)
+FIT_NAMES = ["jon_10", "jon_5", "gauss_swell", "narrow", "bimodal", "zero", "mono", "impulse", "flat", "bimodal2"]
+
+
+def fit_menu():
+    """1-D spectra on 26 frequencies: shapes the optimisers fit, shapes they cannot fit (NaN alone), and shapes in between."""
+    f = FIT_FREQ
+
+    def jon(hs, tp, gamma):
+        fp = 1.0 / tp
+        sig = np.where(f <= fp, 0.07, 0.09)
+        s = f ** -5.0 * np.exp(-1.25 * (f / fp) ** -4.0) * gamma ** np.exp(-((f - fp) ** 2) / (2 * sig ** 2 * fp ** 2))
+        return s * (hs / 4.0) ** 2 / np.sum(s * np.gradient(f))
+
+    def gau(hs, tp, gw):
+        s = np.exp(-((f - 1.0 / tp) ** 2) / (2 * gw ** 2))
+        return s * (hs / 4.0) ** 2 / max(np.sum(s * np.gradient(f)), 1e-300)
+
+    imp = np.zeros(f.size)
+    imp[7] = 5.0
+    m = [jon(2, 10, 3.3), jon(1.5, 5, 2.0), gau(1.0, 14, 0.01), gau(2.0, 16.6, 0.002), gau(2.0, 16.6, 0.008) + jon(1.8, 4.5, 3.3),
+         np.zeros(f.size), np.linspace(0.1, 2, f.size), imp, np.full(f.size, 0.7), jon(3, 12, 5) + jon(2.5, 3.5, 1.5)]
+    return np.array(m)
+
+
+def fit_build(idx, dim, directional):
+    import xarray as xr
+
+    M = fit_menu()[np.asarray(idx)]
+    n = len(idx)
+    co = {dim: (np.datetime64("2020-05-01") + np.arange(n) * np.timedelta64(3, "h")).astype("datetime64[ns]") if dim == "time" else np.arange(n), "freq": FIT_FREQ.copy()}
+    if directional:
+        d = np.arange(4) * 90.0
+        w = np.array([0.5, 0.25, 0.0, 0.25]) / 90.0
+        return xr.DataArray(M[:, :, None] * w[None, None, :], dims=[dim, "freq", "dir"], coords=dict(co, dir=d), name="efth")
+    return xr.DataArray(M, dims=[dim, "freq"], coords=co, name="efth")
+
+
+def fit_call(da, which):
+    import warnings
+    with warnings.catch_warnings():
+        warnings.simplefilter("ignore")
+        try:
+            ds = getattr(da.spec, which)(spectra=False)
+            return {k: np.asarray(ds[k].values, dtype=np.float64) for k in ds.data_vars}
+        except Exception as e:  # noqa
+            return e
+
+
+def run_fits(it):
+    """Every ordered pair (a, b) of the fit menu as a 2-position batch, and (a, unfittable, b) as a 3-position batch: each position of the
+    batch fit must equal the fit of that spectrum alone (NaN where the lone fit is NaN)."""
+    common.load_wavespectra()
+    res = {"evals": 0, "n_nontrivial": 0, "violations": [], "samples": [], "outcomes": {}, "parts": {}}
+    dim, directional = it["dim"], bool(it["directional"])
+    n = len(FIT_NAMES)
+    seen = set()
+    for which in it["fits"]:
+        single = {}
+        for s in range(n):
+            single[s] = fit_call(fit_build([s], dim, directional), which)
+            res["evals"] += 1
+            r = single[s]
+            k = "%s:alone:%s" % (which, "raises" if isinstance(r, Exception) else ("nan" if all(np.isnan(v).all() for v in r.values()) else "finite"))
+            res["outcomes"][k] = res["outcomes"].get(k, 0) + 1
+        a = it["a"]
+        batches = [[a, b] for b in range(n)] + [[a, 3, b] for b in range(n) if it.get("triples")]
+        for idx in batches:
+            if it.get("only") and list(it["only"]) != idx:
+                continue
+            full = fit_call(fit_build(idx, dim, directional), which)
+            res["evals"] += 1
+            res["n_nontrivial"] += 1
+            for p, sp in enumerate(idx):
+                one = single[sp]
+                if isinstance(full, Exception) or isinstance(one, Exception):
+                    bad = isinstance(one, Exception) != isinstance(full, Exception) and not any(isinstance(single[q], Exception) for q in idx)
+                    msg = "batch %r, alone %r" % (full, one) if bad else None
+                else:
+                    msg = None
+                    for k in one:
+                        x, y = full[k].ravel()[p], one[k].ravel()[0]
+                        if not ((np.isnan(x) and np.isnan(y)) or (np.isfinite(x) and np.isfinite(y) and abs(x - y) <= 1e-7 * max(1.0, abs(y)))):
+                            msg = "%s of '%s' is %r in the batch, %r alone" % (k, FIT_NAMES[sp], float(x), float(y))
+                            break
+                if msg:
+                    sig = "%s|batch-position-equals-single-spectrum|%s" % (which, "after-other-spectra" if p > 0 else "before-other-spectra")
+                    if sig not in seen:
+                        seen.add(sig)
+                        res["violations"].append(Violation(PROP, sig, "%s on batch %s (dim %s, %s), position %d: %s" % (
+                            which, [FIT_NAMES[q] for q in idx], dim, "2-D" if directional else "1-D", p, msg),
+                            dict(kind="fits", a=int(a), only=[int(q) for q in idx], dim=dim, directional=directional, fits=[which])))
+    res["parts"]["fits"] = res["evals"]
+    return res
+
+
 def replay(case):
     common.load_wavespectra()
+    if case["kind"] == "fits":
+        return run_fits(dict(a=int(case["a"]), only=case["only"], dim=case["dim"], directional=case["directional"], fits=case["fits"], triples=True))["violations"]
     if case["kind"] == "missing":
         return run_missing(dict(dims=case["dims"], sizes=[int(x) for x in case["sizes"]], k=int(case["k"]), op=case["op"]))["violations"]
     if case["kind"] == "layout":
@@ -380,7 +481,8 @@ def run(rep, tier, seed, parts=None):
                 "distinct spectra (incl. zero, constant, peak-less, single-bin) with per-position wind and depth (all distinct, and a second field in which positions share wind speed/direction or depth); %d operations (all public "
                 "methods except hmax); for every position the batch result must equal the result on the extracted single spectrum (also with a non-spectral dimension stored after freq for the 1- and 2-dimension layouts), and "
                 "replacing one spectrum must leave every other position bitwise unchanged; all 900 ordered pairs of menu spectra on a "
-                "2-position layout (quick: 12 operations, thorough: all); Dataset accessor vs efth accessor for every operation; 4 layouts with missing values (an all-NaN land point stored first, one masked interior bin) for every operation except the watershed methods. "
+                "2-position layout (quick: 12 operations, thorough: all); Dataset accessor vs efth accessor for every operation; 4 layouts with missing values (an all-NaN land point stored first, one masked interior bin) for every operation except the watershed methods; fit_jonswap / fit_gaussian on every ordered pair of a 10-spectrum menu (fittable, unfittable = NaN alone, bimodal) "
+                "as 2-position batches and (a, unfittable, b) 3-position batches, 1-D and directional: every position equals the lone fit. "
                 "Non-trivial = (operation, position) in a layout with more than one position / each ordered pair." % len(ops))
     rep.assumptions = ["partition methods are not applied to layouts that already have a 'part' dimension (their output dimension would collide)",
                        "gamma / alpha / fp are float64 values computed from float32 peak frequencies; numpy evaluates float32 powers of arrays and of single elements with different code paths, so they are compared at 2e-6 instead of 1e-10",
@@ -400,8 +502,14 @@ def run(rep, tier, seed, parts=None):
         for k, (dims, sizes) in enumerate([(("site",), (3,)), (("time", "site"), (2, 3)), (("lat", "lon"), (2, 2)), (("site", "time"), (3, 2))]):
             items.append(dict(kind="missing", dims=dims, sizes=sizes, k=k + seed))
 
+    if parts is None or "fits" in parts:
+        for a in range(len(FIT_NAMES)):
+            for which in ("fit_jonswap", "fit_gaussian"):
+                items.append(dict(kind="fits", a=a, dim=["time", "site"][(a + seed) % 2], directional=(a + seed) % 3 == 0, fits=[which],
+                                  triples=(tier == "thorough" or a in (0, 3))))
+
     def dispatch(it):
-        return {"layout": run_layout, "pairs": run_pairs, "dsacc": run_dsacc, "missing": run_missing}[it["kind"]](it)
+        return {"layout": run_layout, "pairs": run_pairs, "dsacc": run_dsacc, "missing": run_missing, "fits": run_fits}[it["kind"]](it)
 
     for res in common.pmap(dispatch, items):
         rep.merge(res)
